@@ -78,6 +78,14 @@ fn main() {
         Spec { flop: [40, 45, 50], ranges: shared.clone(), scope: (0, 1, 0, 5) }, // twin of #0
     ];
     let expect: Vec<Vec<u64>> = specs.iter().map(alone).collect();
+    // the concurrent phase runs on freshly built, never used range objects (same
+    // contents): first use of a shared range happens on several threads at once
+    let shared = Arc::new(vec![r_a.clone(), r_b.clone()]);
+    let specs: Vec<Spec> = specs
+        .iter()
+        .enumerate()
+        .map(|(i, s)| if i == 2 { Spec { flop: s.flop, ranges: Arc::new(vec![r_c.clone(), r_b.clone()]), scope: s.scope } } else { Spec { flop: s.flop, ranges: shared.clone(), scope: s.scope } })
+        .collect();
 
     // threads 0..3 drain their own evaluator concurrently; thread 3 drains half
     // of its iterator and hands the live iterator to a fourth thread.
